@@ -280,7 +280,9 @@ func c07Run(c *mon.Ctx) {
 	}
 	// watch-shaped syscall rules (path/dir + perm [+ key], all syscalls) in every order / action / operator,
 	// with the key given with -k and as a filter with every operator
-	for _, tv := range [][2]string{{file, dir}, {wd + "/link-to-file", wd + "/link-to-dir"}} {
+	// path values below a regular file (stat says ENOTDIR) and with an over-long component (ENAMETOOLONG): they
+	// name no directory, so path= is right and the -w form must be accepted again
+	for _, tv := range [][2]string{{file, dir}, {wd + "/link-to-file", wd + "/link-to-dir"}, {file + "/below-a-file", dir}, {"/" + strings.Repeat("n", 300), dir}} {
 		file, dir := tv[0], tv[1]
 		for _, act := range []string{"always", "never"} {
 			for _, op := range []string{"=", "!="} {
